@@ -48,12 +48,82 @@ def _codecs_for(desc):
     return cs
 
 
+_SWAP_KINDS = ['INTEGER', 'OCTETSTRING', 'BOOLEAN', 'NULL', 'BITSTRING', 'UTF8', 'OID']
+_ROT = {'C': 'A', 'A': 'P', 'P': 'C'}
+
+
+def _neighbour_desc(r, desc, mode):
+    """A type that collides with desc in whatever a careless process-global cache could be keyed by:
+    the same tag numbers with the other tagging mode (IMPLICIT <-> EXPLICIT), with another tag class,
+    or on another base type."""
+    d = copy.deepcopy(desc)
+
+    def walk(x, is_default=False):
+        tags = x.get('tags') or []
+        if 'flip' in mode and tags:
+            for i in range(len(tags)):
+                innermost_base = (i == 0)
+                if tags[i][0] == 'E':
+                    if not (innermost_base and x['k'] in ('CHOICE', 'ANY')):
+                        tags[i][0] = 'I'
+                else:
+                    tags[i][0] = 'E'
+        if 'rot' in mode:
+            for t in tags:
+                t[1] = _ROT.get(t[1], t[1])
+        if 'swap' in mode and x['k'] in U.PRIMS and not is_default and r.random() < 0.7:
+            nk = r.choice([k for k in _SWAP_KINDS if k != x['k']])
+            for key in ('named', 'con'):
+                x.pop(key, None)
+            x['k'] = nk
+        k = x['k']
+        if k in ('SEQ', 'SET'):
+            for f in x['fields']:
+                walk(f['d'], is_default=(f['opt'] == 'D') or is_default)
+        elif k in ('SEQOF', 'SETOF'):
+            walk(x['of'], is_default)
+        elif k == 'CHOICE':
+            for a in x['alts']:
+                walk(a[1], is_default)
+    walk(d)
+    return d
+
+
+def _gen_neighbours(r, w):
+    """0-2 colliding neighbour types, each with its own values (generation side)."""
+    out = []
+    if U.has_open(w['desc']):
+        return out
+    for _ in range(r.choice([0, 1, 1, 2])):
+        mode = r.choice(['flip', 'flip', 'flip+swap', 'swap', 'rot', 'flip+rot'])
+        nd = _neighbour_desc(r, w['desc'], mode)
+        if nd == w['desc']:
+            continue
+        try:
+            sch = U.build_schema(nd)
+            if hasattr(sch, 'tagMap'):
+                sch.tagMap
+            if U.schema_problem(sch):
+                continue
+            if 'swap' in mode:
+                vals = [U.gen_value(r, nd, U.ValCfg(small=True)) for _ in w['values']]
+            else:
+                vals = copy.deepcopy(w['values'])
+            for v in vals:
+                U.build_value(sch, nd, v)
+        except Exception:
+            continue
+        out.append({'desc': nd, 'values': vals, 'how': mode})
+    return out
+
+
 def gen_plan(r, index, tier):
     w, cfg = common.gen_stream_workload(r, max_values=3, small=True, force_codec='ber', allow_f2=False,
                                         constructed_default=r.random() < 0.4)
     desc = w['desc']
     nv = len(w['values'])
     codecs = _codecs_for(desc)
+    neighbours = _gen_neighbours(r, w)
     if r.random() < 0.5:
         # all tasks through the same codec mode: interference needs two calls inside the SAME code
         # path at the same time (e.g. two decoders both reassembling fragmented strings)
@@ -82,6 +152,16 @@ def gen_plan(r, index, tier):
         else:
             t['v'] = r.randrange(nv)
         tasks.append(t)
+    # calls on colliding neighbour types take part in the same history / interleaving
+    for k, nb in enumerate(neighbours):
+        for _ in range(r.choice([1, 1, 2])):
+            codec = r.choice(codecs if not U.has_kind(nb['desc'], U.CHARS + U.TIMES) else [c for c in codecs if 'chunk' not in c] or ['ber'])
+            t = {'t': r.choice(['encode', 'decode', 'decode']), 'codec': codec, 'v': r.randrange(len(nb['values'])), 'nb': k}
+            tasks.insert(r.randrange(len(tasks) + 1), t)
+    for ti, t in enumerate(tasks):          # stream/consumer ids follow the task index
+        for st in t.get('steps', []):
+            if st[0] in ('deliver', 'arm', 'close', 'poll') and len(st) > 1:
+                st[1] = ti
     mode = r.choice(['history', 'generators', 'generators', 'threads', 'threads'])
     sched = {'mode': mode}
     n = len(tasks)
@@ -106,7 +186,7 @@ def gen_plan(r, index, tier):
             sw.append([at, r.randrange(8)])
         sched['switches'] = sw
     return {'check': ID, 'workload': {'desc': desc, 'values': w['values'], 'open_types': w['open_types']},
-            'tasks': tasks, 'schedule': sched,
+            'neighbours': neighbours, 'tasks': tasks, 'schedule': sched,
             'logging': (r.choice(['all', 'all', 'decoder', 'encoder', 'toggle']) if r.random() < 0.3 else False),
             'isolation': 'fork' if r.random() < 0.02 else 'inproc'}
 
@@ -121,7 +201,41 @@ class Ctx(object):
         self.values = [U.build_value(self.schema, wdesc, v) for v in values]
 
 
-def _dec_kw(plan):
+def _workloads(plan):
+    """[main workload, neighbour 0, neighbour 1, ...] as (desc, values) pairs."""
+    w = plan['workload']
+    return [(w['desc'], w['values'])] + [(n['desc'], n['values']) for n in plan.get('neighbours', [])]
+
+
+def _slot(task):
+    return 0 if task.get('nb') is None else 1 + task['nb']
+
+
+def _ekey(task, v):
+    return '%d|%d|%s' % (_slot(task), v, task['codec'])
+
+
+def _fresh_ctx(plan, task):
+    desc, values = _workloads(plan)[_slot(task)]
+    return Ctx(desc, values)
+
+
+# The process as it was before any codec call ran in it (captured at import, below).  restore() is the
+# simulator's process-restart fault: every enumerated process-global container of pyasn1 gets its pristine
+# content back, so that what runs next runs "in a fresh process" as far as that state goes.
+_PRISTINE = [None]
+_RESTARTS = {'n': 0, 'discarded': 0}
+
+
+def _restart():
+    _RESTARTS['n'] += 1
+    if _PRISTINE[0] is not None and globalstate.restore(_PRISTINE[0]):
+        _RESTARTS['discarded'] += 1
+
+
+def _dec_kw(plan, task=None):
+    if task is not None and task.get('nb') is not None:
+        return {}
     return {'decodeOpenTypes': True} if plan['workload'].get('open_types') else {}
 
 
@@ -155,10 +269,10 @@ class OneShot(object):
             if t['t'] == 'encode':
                 return ['ok', enc.encode(self.ctx.values[t['v']], **opts).hex()]
             if t['t'] == 'decode':
-                data = self.encs.get('%d|%s' % (t['v'], t['codec']))
+                data = self.encs.get(_ekey(t, t['v']))
                 if data is None:
                     return ['skip', 'no-encoding']
-                v, rest = dec.decode(bytes.fromhex(data), asn1Spec=self.ctx.schema, **_dec_kw(self.plan))
+                v, rest = dec.decode(bytes.fromhex(data), asn1Spec=self.ctx.schema, **_dec_kw(self.plan, t))
                 self.result_obj = v
                 return ['ok', U.jsonable(U.absval(v)), bytes(rest).hex()]
             if t['t'] == 'print':
@@ -189,11 +303,11 @@ class StreamTask(object):
     def __init__(self, ti, task, ctx, encs, plan, trace):
         self.ti, self.task, self.ctx, self.plan, self.trace = ti, task, ctx, plan, trace
         enc, dec, opts = U.codec(task['codec'])
-        parts = [encs.get('%d|%s' % (v, task['codec'])) for v in task['vs']]
+        parts = [encs.get(_ekey(task, v)) for v in task['vs']]
         self.ok = all(x is not None for x in parts)
         self.content = b''.join(bytes.fromhex(x) for x in parts) if self.ok else b''
         self.st = streams.SimFile(self.content, ti, trace)
-        self.cons = W.Consumer(dec, self.st, ctx.schema, _dec_kw(plan), cid=ti, trace=trace)
+        self.cons = W.Consumer(dec, self.st, ctx.schema, _dec_kw(plan, task), cid=ti, trace=trace)
         self.pending = [list(s) for s in task['steps']]
         self.kinds = []
         self.objs = []
@@ -263,34 +377,35 @@ def make_task(ti, task, ctx, encs, plan, trace):
 # isolation
 
 def _encodings(plan):
-    """Encodings every decode/stream task needs, produced from FRESH objects."""
+    """Encodings every decode/stream task needs, produced from FRESH objects, each in a restarted process."""
     out = {}
-    w = plan['workload']
     need = set()
     for t in plan['tasks']:
         if t['t'] == 'decode':
-            need.add((t['v'], t['codec']))
+            need.add((_slot(t), t['v'], t['codec']))
         elif t['t'] == 'stream':
             for v in t['vs']:
-                need.add((v, t['codec']))
-    for v, codec in sorted(need):
+                need.add((_slot(t), v, t['codec']))
+    wls = _workloads(plan)
+    for slot, v, codec in sorted(need):
         try:
-            ctx = Ctx(w['desc'], w['values'])
+            _restart()
+            ctx = Ctx(*wls[slot])
             enc, dec, opts = U.codec(codec)
-            out['%d|%s' % (v, codec)] = enc.encode(ctx.values[v], **opts).hex()
+            out['%d|%d|%s' % (slot, v, codec)] = enc.encode(ctx.values[v], **opts).hex()
         except Exception:
             pass
     return out
 
 
 def isolated_outcomes_inproc(plan):
-    """Each task alone, on fresh objects, in this process, before the shared run."""
+    """Each task alone, on fresh objects, in this process restarted before each task."""
     encs = _encodings(plan)
     outs = []
-    w = plan['workload']
     for ti, task in enumerate(plan['tasks']):
         try:
-            ctx = Ctx(w['desc'], w['values'])
+            _restart()
+            ctx = _fresh_ctx(plan, task)
             outs.append(make_task(ti, task, ctx, encs, plan, []).run_all())
         except Exception as e:
             outs.append(['harness', type(e).__name__, str(e)[:100]])
@@ -317,6 +432,10 @@ _CAT = [
     ({'k': 'CHOICE', 'tags': [], 'alts': [['x', {'k': 'BITSTRING', 'tags': [['I', 'C', 0]]}], ['y', {'k': 'INTEGER', 'tags': [['I', 'C', 1]]}]]}, ['y', 7], 'cer'),
     ({'k': 'OCTETSTRING', 'tags': [['E', 'P', 1000]]}, 'ab' * 5, 'ber-chunk:2'),
     ({'k': 'REAL', 'tags': []}, 1.5, 'der'),
+    ({'k': 'OCTETSTRING', 'tags': [['I', 'P', 40]]}, '0a', 'ber'),
+    ({'k': 'INTEGER', 'tags': [['E', 'P', 40]]}, 5, 'ber'),
+    ({'k': 'BOOLEAN', 'tags': [['I', 'C', 16384]]}, False, 'cer'),
+    ({'k': 'SEQ', 'tags': [['I', 'C', 16384]], 'fields': [{'n': 'a', 'd': {'k': 'NULL', 'tags': []}, 'opt': 'R'}]}, {'a': ''}, 'cer'),
 ]
 _CAT_REF = [None]
 
@@ -369,13 +488,13 @@ def _catalogue_outcomes(only=None):
     return out
 
 
-def _gs_moved(plan, gs0, where, trace, ctr):
-    """The state digest moved: harmless unless other calls now behave differently."""
+def _gs_moved(plan, labels, where, trace, ctr):
+    """Process-global state moved: harmless unless other calls now behave differently."""
     ctr['probe.module_state_moved.%s' % where] = 1
     now = json.loads(json.dumps(_catalogue_outcomes()))
     if now != _CAT_REF[0]:
         bad = [i for i, (a, b) in enumerate(zip(now, _CAT_REF[0])) if a != b]
-        diff = [repr(b)[:200] for a, b in zip(gs0, globalstate.digest()) if a != b][:3]
+        diff = list(labels)[:6]
         v = W.Violation('module-state-changed-and-affects-other-calls', where=where, catalogue_items=bad[:5],
                         got=json.dumps(now[bad[0]])[:200], want=json.dumps(_CAT_REF[0][bad[0]])[:200], state_diff=diff)
         return common.violation_result(v, ['module-state-changed-and-affects-other-calls', where, None, None],
@@ -393,10 +512,10 @@ def isolated_outcomes(plan):
             os.close(rfd)
             encs = _encodings(plan)
             outs = []
-            w = plan['workload']
             for ti, task in enumerate(plan['tasks']):
                 try:
-                    ctx = Ctx(w['desc'], w['values'])
+                    _restart()
+                    ctx = _fresh_ctx(plan, task)
                     outs.append(make_task(ti, task, ctx, encs, plan, []).run_all())
                 except Exception as e:
                     outs.append(['harness', type(e).__name__, str(e)[:100]])
@@ -448,13 +567,21 @@ def execute(plan):
     w = plan['workload']
     trace = []
     ctr = {}
+    r0 = dict(_RESTARTS)
+    _restart()                      # every run starts in a "fresh process"
     try:
-        ctx = Ctx(w['desc'], w['values'])
+        ctxs = [Ctx(d_, v_) for d_, v_ in _workloads(plan)]
+        ctx = ctxs[0]
         problem = U.schema_problem(ctx.schema)
     except Exception as e:
         return common.skip_result('build:%s' % type(e).__name__)
     if problem:
         return common.skip_result('schema-ill-formed')
+
+    def mk(ti, trace_):
+        task = plan['tasks'][ti]
+        return make_task(ti, task, ctxs[_slot(task)], encs, plan, trace_)
+
     if _CAT_REF[0] is None:
         _CAT_REF[0] = _catalogue_reference()
         # the catalogue run as one history in this process must already agree with the isolated items
@@ -465,18 +592,19 @@ def execute(plan):
                             got=json.dumps(first[bad[0]])[:200], want=json.dumps(_CAT_REF[0][bad[0]])[:200])
             return common.violation_result(v, ['module-state-changed-and-affects-other-calls', 'catalogue-history', None, None],
                                            trace, ctr, None, None, {'kind': 'file'}, None)
-    gs0 = globalstate.digest()
     if plan.get('isolation') == 'fork':
         encs, iso = isolated_outcomes(plan)
     else:
         encs, iso = isolated_outcomes_inproc(plan)
-    if globalstate.digest() != gs0:
-        bad = _gs_moved(plan, gs0, 'reference-calls', trace, ctr)
+    labels = globalstate.moved(_PRISTINE[0])
+    if labels:
+        bad = _gs_moved(plan, labels, 'reference-calls', trace, ctr)
         if bad:
             return bad
-        gs0 = globalstate.digest()
     if any(o[0] == 'harness' for o in iso):
         return common.skip_result('isolated-harness:%s' % [o for o in iso if o[0] == 'harness'][0][1])
+    _restart()                      # the shared run starts in a fresh process too
+    snap_nb = [(U.snapshot(c.schema), [U.snapshot(v) for v in c.values]) for c in ctxs[1:]]
     snap_schema = U.snapshot(ctx.schema)
     snap_values = [U.snapshot(v) for v in ctx.values]
     if U.snapshot(ctx.schema) != snap_schema or [U.snapshot(v) for v in ctx.values] != snap_values:
@@ -498,6 +626,12 @@ def execute(plan):
         for i, v in enumerate(ctx.values):
             if U.snapshot(v) != snap_values[i]:
                 raise W.Violation('input-value-changed', where=where, value=i)
+        for k, c in enumerate(ctxs[1:]):
+            if U.snapshot(c.schema) != snap_nb[k][0]:
+                raise W.Violation('schema-changed', where=where, neighbour=k)
+            for i, v in enumerate(c.values):
+                if U.snapshot(v) != snap_nb[k][1][i]:
+                    raise W.Violation('input-value-changed', where=where, value=i, neighbour=k)
 
     def check_outcome(ti, outcome, where):
         want = iso[ti]
@@ -505,6 +639,7 @@ def execute(plan):
             return
         if outcome != want:
             raise W.Violation('outcome-differs-from-isolated', task=ti, kind=plan['tasks'][ti]['t'], where=where,
+                              on_neighbour=plan['tasks'][ti].get('nb'),
                               got=json.dumps(outcome)[:300], want=json.dumps(want)[:300],
                               got_cls=_cls(outcome), want_cls=_cls(want))
 
@@ -520,7 +655,7 @@ def execute(plan):
                     if logmode == 'toggle':
                         # the flag is flipped only between calls, when no decoder is suspended
                         debug.setLogger(debug.Debug('all', printer=sink) if pos % 2 == 0 else None)
-                    t = make_task(ti, plan['tasks'][ti], ctx, encs, plan, trace)
+                    t = mk(ti, trace)
                     out = t.run_all()
                     tasks_run.append(t)
                     check_outcome(ti, out, 'history@%d' % pos)
@@ -535,7 +670,7 @@ def execute(plan):
                     if ti not in live:
                         if ti in started:
                             continue
-                        live[ti] = make_task(ti, plan['tasks'][ti], ctx, encs, plan, trace)
+                        live[ti] = mk(ti, trace)
                         started.add(ti)
                         tasks_run.append(live[ti])
                     t = live[ti]
@@ -554,12 +689,12 @@ def execute(plan):
                     check_outcome(ti, out, 'tail')
                 for ti in range(len(plan['tasks'])):
                     if ti not in started:
-                        t = make_task(ti, plan['tasks'][ti], ctx, encs, plan, trace)
+                        t = mk(ti, trace)
                         tasks_run.append(t)
                         check_outcome(ti, t.run_all(), 'unscheduled')
                 check_snapshots('end')
             else:
-                objs = [make_task(ti, t, ctx, encs, plan, trace) for ti, t in enumerate(plan['tasks'])]
+                objs = [mk(ti, trace) for ti in range(len(plan['tasks']))]
                 tasks_run.extend(objs)
                 sch = threads.BatonScheduler(sched['switches'], W.pyasn1_dir(), trace)
                 results = sch.run([o.run_all for o in objs])
@@ -596,11 +731,17 @@ def execute(plan):
                     debug.scope.pop()
                 except Exception:
                     break
-    if globalstate.digest() != gs0:
-        bad = _gs_moved(plan, gs0, 'shared-run', trace, ctr)
+    labels = globalstate.moved(_PRISTINE[0])
+    if labels:
+        bad = _gs_moved(plan, labels, 'shared-run', trace, ctr)
         if bad:
             return bad
     ctr['mode.%s' % mode] = 1
+    ctr['fault.process_restart'] = _RESTARTS['n'] - r0['n']
+    ctr['fault.process_restart.discarded_state'] = _RESTARTS['discarded'] - r0['discarded']
+    if plan.get('neighbours'):
+        ctr['probe.neighbour_types'] = len(plan['neighbours'])
+        ctr['task.on_neighbour'] = len([t for t in plan['tasks'] if t.get('nb') is not None])
     ctr['isolation.%s' % plan.get('isolation', 'inproc')] = 1
     ctr['logging.%s' % (logmode or 'off')] = 1
     if plan.get('logging'):
@@ -726,6 +867,14 @@ def shrink_candidates(plan):
                     if st[0] in ('deliver', 'arm', 'close', 'poll') and len(st) > 1:
                         st[1] = ti
             yield c
+    for k in range(len(plan.get('neighbours', []))):
+        if not any(t.get('nb') == k for t in tasks):
+            c = copy.deepcopy(plan)
+            del c['neighbours'][k]
+            for t in c['tasks']:
+                if t.get('nb') is not None and t['nb'] > k:
+                    t['nb'] -= 1
+            yield c
     if plan.get('logging'):
         c = copy.deepcopy(plan)
         c['logging'] = False
@@ -755,9 +904,20 @@ def shrink_candidates(plan):
             c['tasks'][ti]['codec'] = 'ber'
             yield c
     w = plan['workload']
+    for k, nb in enumerate(plan.get('neighbours', [])):
+        for nd, nvs in common.shrink_desc_values(nb['desc'], nb['values']):
+            c = copy.deepcopy(plan)
+            c['neighbours'][k]['desc'] = nd
+            c['neighbours'][k]['values'] = nvs
+            yield c
     for nd, nvs in common.shrink_desc_values(w['desc'], w['values']):
         c = copy.deepcopy(plan)
         c['workload']['desc'] = nd
         c['workload']['values'] = nvs
         c['workload']['open_types'] = U.has_open(nd)
         yield c
+
+
+# the pristine process state: captured once, at import, before any codec call of this process
+_preimport()
+_PRISTINE[0] = globalstate.capture()
